@@ -184,4 +184,23 @@ TEXT = {
         "technique": "Lean 4 proof over a visitor-event model (composed from C04/C05/C06) + scripted-deserializer "
                      "and real-format differential replay",
     },
+    "C17": {
+        "level": "Proof (logic part; PARTIAL for compiled unsafe code): every modelled API operation returns Ok/Err in "
+                 "every configuration incl. `unsafe` and `strict` (api_total, generate_total) except the documented "
+                 "bucket-index panic (quartile_panics_iff) and the bounds panic for a misreporting reader "
+                 "(misreporting_reader_panics); the set of invariant!() sites extracted from the source is exactly "
+                 "the five that are proved true on every path (invariant_sites, invariant_length, "
+                 "invariant_try_from, invariant_tail_size) — on the pinned tree a sixth, len <= buffer.len(), was "
+                 "present and false for a lying reader: the check produced the replay (lie n>2^20 in the `unsafe` "
+                 "build: garbage result / SIGSEGV), fixed in /repo b6a8a6e, kept as "
+                 "misreporting_reader_ub_counterexample; from_utf8_unchecked only on ASCII text (utf8_ok, "
+                 "unchecked_calls); every vector load of the translated kernels is in bounds (loads_in_bounds); "
+                 "`unsafe` changes no result (unsafe_same_result). Correspondence: all broad streams in the "
+                 "`unsafe` release build and in dev builds with overflow checks/debug assertions; lying readers in "
+                 "child processes.",
+        "note": COMMON_NOTE + " NOT covered: UB inside compiled unsafe blocks / LLVM / hex-simd (no sanitizer in "
+                "the quick tier).",
+        "technique": "Lean 4 proof of totality and of every extracted invariant!() site + unsafe/dev-build "
+                     "differential replay with child-process fault observation",
+    },
 }
